@@ -172,7 +172,10 @@ impl<S: BuildHasher + Clone + 'static> ExpirationMap<S> {
 
         let mut m = self.buckets.write();
 
-        m.remove(&old_bucket_num);
+        // move only this key: the other keys of the old bucket keep their place
+        if let Some(bucket) = m.get_mut(&old_bucket_num) {
+            bucket.map.remove(&key);
+        }
 
         match m.get_mut(&new_bucket_num) {
             None => {
